@@ -19,7 +19,7 @@ MANIFEST = dict(
          "sent to ninja while slow commands (early in-place writers, with and without depfile) provably run: exit status 130, lock file "
          "gone, no command of the scenario alive, modified outputs of killed commands (always with a depfile) and their depfiles "
          "removed, then recovery == clean build. SIGKILL of ninja: recovery only. nsim: Interrupted{} at every wait index of sampled "
-         "schedules checks Builder::Cleanup on the virtual disk.",
+         "schedules checks Builder::Cleanup on the virtual disk. In 40 % of the signal runs the signal arrives while ninja is NOT waiting for its commands: it sits in write(2) on a stdout pipe nobody reads (seen in /proc/<pid>/syscall) printing the output of the first command that finished. Whatever the mode: when the last command had not started (its own CLOCK_MONOTONIC stamp) at the moment kill() returned, exit status 0 means the interrupt was ignored.",
     note="Trusted: crash == _exit at the hook (no torn write inside a single fwrite: C08/C09 cover torn bytes); commands write "
          "atomically when left running after a crash (the property's assumption).",
     ref="DESIGN.md §5 C07")
